@@ -500,6 +500,11 @@ fn txt_ctor_case(ctx: &mut Ctx, idx: u64) {
 }
 
 pub fn run(ctx: &mut Ctx) {
+    if let Some(tape) = ctx.tape_case() {
+        // replay of a case found by the coverage-guided `model` target: the tape drives every generator decision
+        super::model_case("C04", ctx, &tape);
+        return;
+    }
     let tier = ctx.tier;
     if ctx.family_active("txt-ctor") {
         let nt = if ctx.slow_tool { 60 } else { tier.pick(4_000u64, 200_000u64) };
